@@ -7,7 +7,7 @@ the tail expression.  A `?` inside such a scope is reported as unsupported.
 Bindings are `let [mut] NAME = ..;` statements or `if let PAT(.. NAME ..) = .. { body }`.
 """
 from .lex import Code, apply_edits, OPEN
-from .passes import Unsupported, thing_end
+from .passes import Unsupported, thing_end, if_body_open
 from .rules import rewrite
 
 
@@ -39,10 +39,7 @@ def _scope_edits(c, ob, scan_from, name, dropcall, binder_stmt_start=None):
         if x == "?" and c.kind(m) == "p":
             raise Unsupported("raii: `?` inside the scope of %s" % name)
         if x in ("loop", "while", "for") and c.kind(m) == "id" and c.t(m - 1) not in ("<", "impl"):
-            hb = m
-            while c.t(hb) != "{":
-                if c.t(hb) in ("(", "["): hb = c.close(hb)
-                hb += 1
+            hb = if_body_open(c, m)
             he = c.close(hb)
             for q in range(hb, he):
                 if c.t(q) == "return" and c.kind(q) == "id":
@@ -115,7 +112,18 @@ def rule_raii(text, raii):
                 j = k + 1
                 if c.t(j) == "mut": j += 1
                 name = c.t(j)
-                if c.kind(j) != "id" or c.t(j + 1) not in ("=", ":") or ("let:%d:%s" % (c.pos(k), name)) in done or name.startswith("__raii"):
+                if c.kind(j) == "id" and c.t(j + 1) == "(" and name in ("Ok", "Some", "Err"):
+                    # `let Ok(mut g) = INIT else { diverge };`: the binder is the identifier inside the pattern
+                    pe = c.close(j + 1)
+                    inner = [c.t(q) for q in range(j + 2, pe) if c.kind(q) == "id" and c.t(q) not in ("Ok", "Some", "Err", "mut", "ref")
+                             and c.t(q + 1) != "(" and c.t(q + 1) != "::"]
+                    if len(inner) != 1 or c.t(pe + 1) != "=":
+                        continue
+                    name = inner[0]
+                    if name in done or name.startswith("__raii"):
+                        continue
+                    j = pe      # so that `eq` is found from here
+                elif c.kind(j) != "id" or c.t(j + 1) not in ("=", ":") or ("let:%d:%s" % (c.pos(k), name)) in done or name.startswith("__raii"):
                     continue
                 # extent of the initialiser
                 eq = j + 1
@@ -133,7 +141,7 @@ def rule_raii(text, raii):
                     n = len([d for d in done if d.startswith("now")])
                     done.add("now%d" % n)
                     tmp = "__raii_now_%d" % n
-                    return (c.pos(j), c.end(endi), "%s = %s; %s(%s, w);" % (tmp, c.slice(eq + 1, endi).strip(), dropfn, tmp))
+                    return (c.pos(k), c.end(endi), "/*RAII-OK*/ let %s = %s; %s(%s, w);" % (tmp, c.slice(eq + 1, endi).strip(), dropfn, tmp))
                 ob = c.enclosing_open(k)
                 if ob < 0 or c.t(ob) != "{":
                     raise Unsupported("raii: binding %s not in a block" % name)
@@ -144,6 +152,7 @@ def rule_raii(text, raii):
                 let_end = stmts[idx[0]][1]
                 dropcall = "%s(%s, w);" % (dropfn, name)
                 edits = _scope_edits(c, ob, let_end, name, dropcall, binder_stmt_start=k)
+                edits.append((c.pos(k), c.pos(k), "/*RAII-OK*/ "))
                 done.add(name)
                 return (0, len(c.text), apply_edits(c.text, edits))
             # ---- if let PAT = EXPR { body }
@@ -172,10 +181,46 @@ def rule_raii(text, raii):
                     continue
                 dropcall = "%s(%s, w);" % (dropfn, name)
                 edits = _scope_edits(c, hb, hb + 1, name, dropcall)
+                edits.append((c.pos(k), c.pos(k), "/*RAII-OK*/ "))
                 done.add("iflet:" + name)
                 return (0, len(c.text), apply_edits(c.text, edits))
         return None
-    return rewrite(text, finder)
+    out = rewrite(text, finder)
+    _check_coverage(out, raii)
+    return out
+
+
+def _check_coverage(text, raii):
+    """Soundness of rule D: EVERY value produced by a guard initialiser (`.lock(`, `WaitForGuard(`, ..) must sit in a binding
+    whose scope-end drop was made explicit (marked /*RAII-OK*/).  A guard bound in a form this rule does not know (a pattern, a
+    temporary, a struct field, a return value) would silently never be released in the verified text - and that shows up as a
+    FAILED obligation of a correct function.  Such text is outside the rules."""
+    from .lex import Code as _C
+    c = _C(text)
+    # ranges of marked statements
+    ranges = []
+    for m in __import__("re").finditer(r"/\*RAII-OK\*/", text):
+        # first significant token after the marker
+        k0 = None
+        for k in range(len(c)):
+            if c.pos(k) >= m.end():
+                k0 = k; break
+        if k0 is None:
+            continue
+        e = thing_end(c, k0)
+        if c.t(k0) == "if":
+            e = c.close(if_body_open(c, k0)) + 1
+        ranges.append((k0, e))
+    for key in raii:
+        if not key.startswith("init:"):
+            continue
+        pat = [t.text for t in _C(key[5:]).toks if t.kind not in ("ws",)]
+        for q in range(len(c)):
+            if all(c.t(q + i) == pt for i, pt in enumerate(pat)):
+                if c.t(q - 1) in ("fn", "struct", "impl") or (pat[0] != "." and c.t(q - 1) == "::" and False):
+                    continue
+                if not any(a <= q < b for a, b in ranges):
+                    raise Unsupported("raii: a guard produced by `%s..` is not bound in a form whose release rule D can make explicit" % key[5:])
 
 
 def _exit_edit(c, m, dropcall):
